@@ -36,6 +36,7 @@ pub enum Plan {
     Codec(CodecPlan),
     Handover(super::c10_handover::HandoverPlan),
     SoftStop(super::c10_softstop::SoftStopPlan),
+    Cluster(super::c10_cluster::ClusterPlanC10),
 }
 
 fn gen_addr(rng: &mut Prng, style: u64, i: usize) -> SocketAddr {
@@ -167,6 +168,8 @@ impl Property for C10 {
     fn gen_plan(&self, seed: u64, tier: Tier) -> Value {
         let mut rng = Prng::derive(seed, "c10/tier");
         let f = rng.below(4);
+        // one plan in eight: the real main process orchestrates the upgrade of a real worker (c10_cluster.rs)
+        if rng.below(8) == 0 { return serde_json::to_value(Plan::Cluster(super::c10_cluster::generate(seed, tier))).unwrap(); }
         if f == 3 { return serde_json::to_value(Plan::SoftStop(super::c10_softstop::generate(seed, tier))).unwrap(); }
         if f == 0 { serde_json::to_value(Plan::Codec(generate_codec(seed, tier))).unwrap() } else { serde_json::to_value(Plan::Handover(super::c10_handover::generate(seed, tier))).unwrap() }
     }
@@ -175,6 +178,7 @@ impl Property for C10 {
             Ok(Plan::Codec(p)) => run_codec(&p),
             Ok(Plan::Handover(p)) => super::c10_handover::run(&p, false).0,
             Ok(Plan::SoftStop(p)) => super::c10_softstop::run(&p, false).0,
+            Ok(Plan::Cluster(p)) => super::c10_cluster::run(&p, false).0,
             Err(e) => RunReport { harness_error: Some(format!("bad plan: {e}")), ..Default::default() },
         }
     }
@@ -197,6 +201,7 @@ impl Property for C10 {
             }
             Ok(Plan::Handover(p)) => super::c10_handover::shrink(&p).into_iter().map(|q| serde_json::to_value(Plan::Handover(q)).unwrap()).collect(),
             Ok(Plan::SoftStop(p)) => super::c10_softstop::shrink(&p).into_iter().map(|q| serde_json::to_value(Plan::SoftStop(q)).unwrap()).collect(),
+            Ok(Plan::Cluster(p)) => super::c10_cluster::shrink(&p).into_iter().map(|q| serde_json::to_value(Plan::Cluster(q)).unwrap()).collect(),
             _ => vec![],
         }
     }
@@ -204,6 +209,7 @@ impl Property for C10 {
         match serde_json::from_value::<Plan>(plan.clone()) {
             Ok(Plan::Handover(p)) => super::c10_handover::run(&p, true).1,
             Ok(Plan::SoftStop(p)) => super::c10_softstop::run(&p, true).1,
+            Ok(Plan::Cluster(p)) => super::c10_cluster::run(&p, true).1,
             Ok(Plan::Codec(p)) => serde_json::to_string_pretty(&run_codec(&p)).unwrap(),
             Err(e) => e.to_string(),
         }
@@ -211,11 +217,11 @@ impl Property for C10 {
     fn descr(&self) -> Descr {
         Descr {
             level: "exploration",
-            rule: "three plan families: (softstop) mixed-protocol scenario (HTTP/2 client over real TLS, sometimes an H1 client, H1 backend, trigger-free C14 plans) with SoftStop sent at a seeded moment inside the transfers and h2_graceful_shutdown_deadline_seconds unset/0/30/120: every request the client managed to send completes byte-exactly unless explicitly refused as retryable, SoftStop is answered OK once and the worker returns, after which the peers drain their socket buffers; (codec) listener sets of 0..200 addresses of every textual shape (shortest/longest IPv4, IPv6, mixes over http/tls/tcp/udp) sent with the real ScmSocket::send_listeners and read back with the real receive_listeners, each returned fd checked against its address through getsockname, plus an fd-table audit; (handover) two real workers in one simulation with a scripted master replaying the upgrade sequence at a PRNG-chosen moment relative to client activity; non-trivial = at least one listener / one request; distinct = trace hashes",
+            rule: "four plan families: (cluster) the real main process and real workers in one simulation, UpgradeWorker sent by a scripted CLI client at a seeded moment relative to client traffic (c10_cluster.rs); (softstop) mixed-protocol scenario (HTTP/2 client over real TLS, sometimes an H1 client, H1 backend, trigger-free C14 plans) with SoftStop sent at a seeded moment inside the transfers and h2_graceful_shutdown_deadline_seconds unset/0/30/120: every request the client managed to send completes byte-exactly unless explicitly refused as retryable, SoftStop is answered OK once and the worker returns, after which the peers drain their socket buffers; (codec) listener sets of 0..200 addresses of every textual shape (shortest/longest IPv4, IPv6, mixes over http/tls/tcp/udp) sent with the real ScmSocket::send_listeners and read back with the real receive_listeners, each returned fd checked against its address through getsockname, plus an fd-table audit; (handover) two real workers in one simulation with a scripted master replaying the upgrade sequence at a PRNG-chosen moment relative to client activity; non-trivial = at least one listener / one request; distinct = trace hashes",
             assumptions: vec!["AF_UNIX listening sockets with simulated addresses stand in for TCP listeners", "release semantics"],
-            real: vec!["sozu_command_lib::scm_socket (SCM_RIGHTS over a real unix socket pair)", "two sozu_lib::server::Server::run loops (handover family)", "one Server::run with rustls on both sides (softstop family)"],
-            stub: vec!["master process (scripted: ReturnListenSockets -> receive -> boot successor -> SoftStop + activate)", "clients", "backends", "clock", "entropy"],
-            not_covered: vec!["the real master's orchestration (bin/src/command/upgrade.rs)", "old worker crashing mid-hand-over", "SO_REUSEPORT balancing"],
+            real: vec!["cluster family: sozu::command::server::CommandHub::run, launch_new_worker / fork_main_into_worker (parent branch), bin/src/command/upgrade.rs, sozu::worker::begin_worker_process, two Server::run loops", "sozu_command_lib::scm_socket (SCM_RIGHTS over a real unix socket pair)", "two sozu_lib::server::Server::run loops (handover family)", "one Server::run with rustls on both sides (softstop family)"],
+            stub: vec!["master process in the handover/softstop families (scripted: ReturnListenSockets -> receive -> boot successor -> SoftStop + activate)", "fork/exec (cluster family: a thread stands in for the exec'd child and receives duplicates of the inherited descriptors)", "CLI client", "clients", "backends", "clock", "entropy"],
+            not_covered: vec!["old worker crashing mid-hand-over", "main-process upgrade (fork_main_into_new_main)", "HTTPS/TCP/UDP listeners in the cluster family", "SO_REUSEPORT balancing"],
         }
     }
 }
